@@ -394,7 +394,7 @@ fn check_with_opt(input: &(u16, u8, u8), case: &mut Case) -> Result<(), Fail> {
 fn enum_counts(_t: Tier, shard: usize, n: usize, f: &mut dyn FnMut((u8, u16)) -> bool) {
     let mut i = 0;
     for section in 0..4u8 {
-        for count in [0u16, 1, 2, 3, 17, 100, 127, 128, 179, 180, 181, 182, 200, 255, 256, 257, 300, 512, 1000, 4095, 4096, 5000] {
+        for count in crate::gen::sizes_u16(&[0u16, 1, 2, 3, 17, 100, 127, 128, 179, 180, 181, 182, 200, 255, 256, 257, 300, 512, 1000, 4095, 4096, 5000], 1100) {
             i += 1;
             if mine(i, shard, n) && !f((section, count)) {
                 return;
